@@ -137,6 +137,9 @@ func mkField(fi *model.FieldInst) *field {
 	if fi.TV {
 		f.opts |= index.IncludeTermVectors
 	}
+	if len(fi.Toks) == 0 && fi.NilFreqs {
+		return f
+	}
 	f.freqs = make(index.TokenFrequencies, len(fi.Toks))
 	for _, t := range fi.Toks {
 		tf := &index.TokenFreq{Term: []byte(t.Term)}
